@@ -129,7 +129,8 @@ type c08ClusterCfg struct {
 	reserve        btcutil.Amount
 	fundSeed       [32]byte
 	poolWorkers    int
-	maxAcceptedAdd uint16
+	// max_accepted_htlcs of both ends, per channel
+	maxAcceptedAB, maxAcceptedBC uint16
 }
 
 type c08Cluster struct {
@@ -149,7 +150,8 @@ func (c *c08Cluster) stopPools() {
 // the caller.
 func c08NewChanPair(t *testing.T, cfg *c08ClusterCfg, dbA, dbB *channeldb.DB,
 	privA, privB []byte, amt btcutil.Amount, scid lnwire.ShortChannelID,
-	salt byte) (*c08ChanPair, []*lnwallet.SigPool, error) {
+	salt byte, maxAccepted uint16) (*c08ChanPair, []*lnwallet.SigPool,
+	error) {
 
 	aliceKeyPriv, aliceKeyPub := btcec.PrivKeyFromBytes(privA)
 	bobKeyPriv, bobKeyPub := btcec.PrivKeyFromBytes(privB)
@@ -166,7 +168,7 @@ func c08NewChanPair(t *testing.T, cfg *c08ClusterCfg, dbA, dbB *channeldb.DB,
 				),
 				ChanReserve:      cfg.reserve,
 				MinHTLC:          0,
-				MaxAcceptedHtlcs: cfg.maxAcceptedAdd,
+				MaxAcceptedHtlcs: maxAccepted,
 			},
 			CommitmentParams: channeldb.CommitmentParams{
 				DustLimit: dust,
@@ -366,7 +368,7 @@ func c08NewCluster(t *testing.T, cfg *c08ClusterCfg) (*c08Cluster, error) {
 
 	ab, pools, err := c08NewChanPair(
 		t, cfg, cl.dbAlice, cl.dbBob, alicePrivKey, bobPrivKey,
-		cfg.amtAB, scid1, 1,
+		cfg.amtAB, scid1, 1, cfg.maxAcceptedAB,
 	)
 	cl.pools = append(cl.pools, pools...)
 	if err != nil {
@@ -374,7 +376,7 @@ func c08NewCluster(t *testing.T, cfg *c08ClusterCfg) (*c08Cluster, error) {
 	}
 	bc, pools, err := c08NewChanPair(
 		t, cfg, cl.dbBob, cl.dbCarol, bobPrivKey, carolPrivKey,
-		cfg.amtBC, scid2, 2,
+		cfg.amtBC, scid2, 2, cfg.maxAcceptedBC,
 	)
 	cl.pools = append(cl.pools, pools...)
 	if err != nil {
@@ -881,4 +883,34 @@ func c08CreateLink(h *hopNetwork, server, peer *mockServer,
 	}()
 
 	return chanLink, nil
+}
+
+// c08Notifier counts, at the forwarder, the ADDs that the OUTGOING link gave
+// up on after the switch had accepted the forward (mailbox FailAdd: no HTLC
+// slot, balance taken by a concurrent HTLC, ...).
+type c08Notifier struct {
+	mockHTLCNotifier
+
+	mu       sync.Mutex
+	failAdds int
+}
+
+func (n *c08Notifier) NotifyLinkFailEvent(key HtlcKey, _ HtlcInfo,
+	_ HtlcEventType, linkErr *LinkError, _ bool) {
+
+	if linkErr == nil || key.IncomingCircuit.ChanID == hop.Source ||
+		linkErr.FailureDetail != OutgoingFailureDownstreamHtlcAdd {
+
+		return
+	}
+	n.mu.Lock()
+	n.failAdds++
+	n.mu.Unlock()
+}
+
+func (n *c08Notifier) count() int {
+	n.mu.Lock()
+	defer n.mu.Unlock()
+
+	return n.failAdds
 }
